@@ -24,7 +24,7 @@ ASSUMPTIONS = ["the seven branch mnemonics of the pinned table must keep assembl
 
 MUST_ASSEMBLE = ["bcc", "bcs", "beq", "bmi", "bne", "bpl", "bra"]
 KEY_D = [-129, -128, -1, 0, 127, 128]
-PLACES = ["mid", "branch-at-end", "target-at-start", "target-at-end"]
+PLACES = ["mid", "branch-at-end", "target-at-start", "target-at-end", "rom-start"]
 TARGETS = ["back", "fwd", "num"]
 RELOCS = ["none", "rom", "ram-both", "ram-branch", "ram-target"]
 
@@ -74,6 +74,11 @@ def build(case):
             return src, rom, ("reject", "out of range")
     if place == "far":
         pass
+    elif place == "rom-start":
+        # the very first ROM address (file offset 0), reached by a second *= / by @= after other output
+        bank = r.first << 16
+        lo, hi = bank | r.win_lo, bank | r.win_hi
+        B = lo - d - 2 if d <= -2 else lo
     elif place == "mid":
         B = bank | ((r.win_lo + r.win_hi + 1) // 2 + 0x123)
     elif place == "branch-at-end":
@@ -91,6 +96,8 @@ def build(case):
     S = T if tgt == "back" else B  # where the emitted run starts
     if reloc in ("none", "rom"):
         head = f"*=0x{S:06x}\n" if reloc == "none" else f"*=0x{other:06x}\n@=0x{S:06x}\n"
+        if place == "rom-start":
+            head = f"*=0x{other + 0x40:06x}\n.db 0xea, 0xea\n" + head
         if tgt == "back":
             src = head + "tg:\n" + pad(B - T) + f"{m} tg\n"
             where = "last2"
@@ -150,7 +157,8 @@ def check_one(out: Outcome, case) -> bool:
                 out.bad(f"inrange-rejected:{m}:{case['reloc']}:{case['tgt']}", case,
                         f"{rom}: in-range branch (d={d}) rejected: {res['status']} {res['exc']} {res.failure_text[:200]}\n{src}")
             return True
-        flat = b"".join(dd for _, dd in res["blocks"])
+        blocks = res["blocks"][1:] if case["place"] == "rom-start" else res["blocks"]  # skip the two filler bytes written first
+        flat = b"".join(dd for _, dd in blocks)
         got = flat[-2:] if where == "last2" else flat[:2]
         want = bytes([opcode, d & 0xFF])
         if got != want:
